@@ -10,6 +10,7 @@ import (
 	"reflect"
 
 	"github.com/llir/llvm/ir"
+	"github.com/llir/llvm/ir/types"
 )
 
 type named interface {
@@ -159,6 +160,39 @@ func ClearResultTypes(seed uint64, m *ir.Module) int {
 			}
 			clear(b.Term)
 		}
+	}
+	return n
+}
+
+// RenameTypes renames a seeded subset of the identified struct types of m through SetName (every use is the
+// same object, so every use follows). The module means what it meant up to the names of types.
+func RenameTypes(seed uint64, m *ir.Module) int {
+	state := seed ^ 0x5A5A5A5A5A5A5A5A
+	next := func(n int) int {
+		state += 0x9E3779B97F4A7C15
+		z := state
+		z = (z ^ (z >> 30)) * 0xBF58476D1CE4E5B9
+		z = (z ^ (z >> 27)) * 0x94D049BB133111EB
+		z ^= z >> 31
+		return int(z % uint64(n))
+	}
+	taken := map[string]bool{}
+	for _, t := range m.TypeDefs {
+		taken[t.Name()] = true
+	}
+	n := 0
+	for _, t := range m.TypeDefs {
+		st, ok := t.(*types.StructType)
+		if !ok || st.Name() == "" || next(2) == 0 {
+			continue
+		}
+		nn := st.Name() + []string{".renamed", "_2", ".10"}[next(3)]
+		if len(nn) > 0 && nn[0] == '"' || taken[nn] {
+			continue
+		}
+		taken[nn] = true
+		st.SetName(nn)
+		n++
 	}
 	return n
 }
